@@ -251,33 +251,38 @@ func c09c(c *Ctx) {
 		c.Check(ok, "ParseProgram/explicit-text-fields", c.W.FuncPos(fn), "explicit text: Value, StringType, Name copied from the same text statement", "ast.Text for explicit texts is not built from (stmt.Value, stmt.StringType, stmt.Name.Value) of one statement")
 	}
 	if fn := c.Fn("emitter.Emitter.emitText"); fn != nil {
+		// the directive is the text's string type, "string" when that is empty: either as a
+		// chosen word in one write or as two writes
 		var site *writeSite
-		ws := writeSites(fn)
+		var typedD, dfltD dnf
+		nTyped, nDflt, nOther := 0, 0, 0
+		ws := c.sitesOf(fn)
 		for i := range ws {
-			if ws[i].format == "\t.%s \"%s\"\n" {
+			switch {
+			case ws[i].format == "\t.%s \"%s\"\n" && len(ws[i].argT) == 2:
 				site = &ws[i]
+				if ws[i].argT[0] == "$1.StringType" {
+					nTyped++
+					typedD = orDNF(typedD, ws[i].cond)
+				} else {
+					nOther++
+				}
+			case ws[i].format == "\t.string \"%s\"\n" && len(ws[i].argT) == 1:
+				site = &ws[i]
+				nDflt++
+				dfltD = orDNF(dfltD, ws[i].cond)
 			}
 		}
-		if site == nil || len(site.args) != 2 {
+		if site == nil {
 			c.Bad("emitText/directive-line", c.W.FuncPos(fn), "no directive line of the form TAB .<type> \"<line>\" NEWLINE")
 			return
 		}
-		ph, isPhi := site.args[0].(*ssa.Phi)
-		ok := false
-		if isPhi {
-			var dflt, typed bool
-			for i, e := range ph.Edges {
-				must := c.edgeMust(fn, ph.Block().Preds[i], ph.Block())
-				et := c.term(fn, e)
-				if et == `"string"` && !hasLit(must, "+(0 < builtin:len($1.StringType))") {
-					dflt = true
-				}
-				if et == "$1.StringType" && hasLit(must, "+(0 < builtin:len($1.StringType))") {
-					typed = true
-				}
-			}
-			ok = dflt && typed
-		}
+		nonEmpty := "(0 < builtin:len($1.StringType))"
+		// typed form exactly under "non-empty", default form exactly under "empty", and both
+		// under the same remaining conditions (the loop over the lines)
+		tr, okT := stripLit(typedD, "+"+nonEmpty)
+		dr, okD := stripLit(dfltD, "-"+nonEmpty)
+		ok := nOther == 0 && nTyped > 0 && nDflt > 0 && okT && okD && dnfEquiv(tr, dr)
 		c.Check(ok, "emitText/directive", c.W.Pos(site.call.Pos()), "directive = the text's string type, .string when empty", "the directive is not (StringType if non-empty else \"string\")")
 	}
 }
@@ -327,17 +332,17 @@ func c09e(c *Ctx) {
 		return
 	}
 	var site *writeSite
-	ws := writeSites(fn)
+	ws := c.sitesOf(fn)
 	for i := range ws {
 		if ws[i].format == "\t.%s \"%s\"\n" {
 			site = &ws[i]
 		}
 	}
-	if site == nil || len(site.args) != 2 {
+	if site == nil || len(site.argT) != 2 {
 		c.Bad("emitText/line", c.W.FuncPos(fn), "directive line not found")
 		return
 	}
-	line := c.term(fn, site.args[1])
+	line := site.argT[1]
 	ok := strings.HasPrefix(line, `strings.Split($1.Value,"\n")[phi(`) && strings.HasSuffix(line, "+1]")
 	c.Check(ok, "emitText/every-line-in-order", c.W.Pos(site.call.Pos()), "one directive per element of Split(Value, \"\\n\"), in order", "directive lines print "+pretty(line)+", expected every element of strings.Split(text.Value, \"\\n\") in order")
 	if h := loopHeaders(fn)[site.call.Block()]; h != nil {
@@ -362,7 +367,7 @@ func c09e(c *Ctx) {
 	// separators agree: lexer joins adjacent literals with "\n"; FormatText ends a line with '\n'
 	if rs := c.Fn("lexer.Lexer.readString"); rs != nil {
 		ok := false
-		for _, w := range writeSites(rs) {
+		for _, w := range c.sitesOf(rs) {
 			if w.konst && w.format == "\n" && w.method == "WriteString" {
 				ok = true
 			}
@@ -371,7 +376,7 @@ func c09e(c *Ctx) {
 	}
 	if ft := c.Fn("parser.FontConfig.FormatText"); ft != nil {
 		n := 0
-		for _, w := range writeSites(ft) {
+		for _, w := range c.sitesOf(ft) {
 			if w.method == "WriteByte" && w.konst && w.format == "\n" {
 				n++
 			}
@@ -558,7 +563,7 @@ func c10b(c *Ctx) {
 	if fn == nil {
 		return
 	}
-	ws := writeSites(fn)
+	ws := c.sitesOf(fn)
 	var name, args, nl *writeSite
 	for i := range ws {
 		switch {
@@ -571,10 +576,10 @@ func c10b(c *Ctx) {
 		}
 	}
 	pos := c.W.FuncPos(fn)
-	c.Check(name != nil && len(name.args) == 1 && c.term(fn, name.args[0]) == "$0.Name.Value", "render/name", pos, "TAB + command name", "the command line does not start with TAB + Name.Value from a constant format")
-	okArgs := args != nil && len(args.args) == 1 && c.term(fn, args.args[0]) == `strings.Join($0.Args,", ")`
+	c.Check(name != nil && len(name.argT) == 1 && name.argT[0] == "$0.Name.Value", "render/name", pos, "TAB + command name", "the command line does not start with TAB + Name.Value from a constant format")
+	okArgs := args != nil && len(args.argT) == 1 && args.argT[0] == `strings.Join($0.Args,", ")`
 	if okArgs {
-		d := c.PC(fn).At(args.call.Block())
+		d := args.cond
 		okArgs = dnfEquiv(d, mkDNF([]string{"+(0 < builtin:len($0.Args))"}))
 	}
 	c.Check(okArgs, "render/args", pos, "SPACE + arguments joined by ', ' exactly when there are arguments", "arguments are not rendered as \" \" + strings.Join(Args, \", \") through a constant format exactly when len(Args) > 0")
@@ -625,7 +630,7 @@ func c10c(c *Ctx) {
 		ok = strings.HasPrefix(a, "assert<*ast.CommandStatement>($0.statements[phi(") && strings.Contains(a, "+1])#0")
 		why = "renders " + pretty(a) + ", expected every element of c.statements in order"
 		written := false
-		for _, ws := range writeSites(fn) {
+		for _, ws := range c.sitesOf(fn) {
 			if ws.arg == calls[0].(ssa.Value) && c.term(fn, ws.sb) == "$1" {
 				written = true
 			}
@@ -836,7 +841,7 @@ func c11c(c *Ctx) {
 	if ok {
 		d := c.PC(fn).At(pre[0].Block())
 		written := false
-		for _, ws := range writeSites(fn) {
+		for _, ws := range c.sitesOf(fn) {
 			if ws.arg == pre[0].(ssa.Value) && c.term(fn, ws.sb) == "$1" {
 				written = true
 			}
@@ -911,4 +916,29 @@ func c10e(c *Ctx) {
 		}
 		c.Check(stored, fn.Name()+"/appended-list-is-kept", c.W.FuncPos(fn), "the extended list is stored in the block / returned", "the list extended with the parsed statements is not the one kept")
 	}
+}
+
+// stripLit removes literal l from every conjunction of d; false when some conjunction lacks it.
+func stripLit(d dnf, l string) (dnf, bool) {
+	if d.unknown {
+		return d, false
+	}
+	out := dnf{}
+	for _, cj := range d.cs {
+		var n conj
+		found := false
+		for _, x := range cj {
+			if x == l {
+				found = true
+			} else {
+				n = append(n, x)
+			}
+		}
+		if !found {
+			return d, false
+		}
+		out.cs = append(out.cs, n)
+	}
+	out.cs = simplify(out.cs)
+	return out, true
 }
